@@ -156,17 +156,22 @@ class ConstTable:
             self.groups.setdefault(group, []).append(key)
         return self.consts[key]
 
-    def axioms(self) -> list[z3.BoolRef]:
-        allc = list(self.consts.values()) + [NONE]
+    def axioms(self, only: Optional[set] = None) -> list[z3.BoolRef]:
+        """only: names of the constants that occur in the obligation (facts about the others are irrelevant to it)"""
+        keep = (lambda c: True) if only is None else (lambda c: c.decl().name() in only)
+        allc = [c for c in self.consts.values() if keep(c)] + [NONE]
         ax = []
         if len(allc) > 1:
             ax.append(z3.Distinct(*allc))
         ax.append(z3.Not(truthy(NONE)))
         ax.append(typeof(NONE) == CLASSES.const("NoneType"))
         for key in self.groups.get("marker", []):
-            ax.append(typeof(self.consts[key]) == CLASSES.const("MarkerObject"))
+            if keep(self.consts[key]):
+                ax.append(typeof(self.consts[key]) == CLASSES.const("MarkerObject"))
         for key in self.groups.get("str", []):
             c = self.consts[key]
+            if not keep(c):
+                continue
             ax.append(typeof(c) == CLASSES.const("str"))
             lit = key[len("str:"):]
             ax.append(truthy(c) == (len(lit) > 0))
